@@ -7,6 +7,7 @@ accept the same values and serialize to the same JSON Schema (class titles aside
 import copy
 import json
 import random
+from fractions import Fraction
 
 from statham.serializers import serialize_json, serialize_python
 
@@ -165,7 +166,9 @@ def normalize_titles(doc):
     if isinstance(doc, bool) or doc is None or isinstance(doc, str):
         return doc
     if isinstance(doc, (int, float)):
-        return ("num", float(doc)) if abs(doc) < 2 ** 53 else ("num", repr(doc))
+        if isinstance(doc, float) and (doc != doc or doc in (float("inf"), float("-inf"))):
+            return ("num", repr(doc))
+        return ("num", str(Fraction(doc)))      # exact value: 2**53 and 2.0**53 are the same JSON number
     if isinstance(doc, dict):
         out = {}
         for k, v in sorted(doc.items()):
@@ -235,6 +238,74 @@ def has_bool_num_confusion(a, b):
     return bool(diffs) and all(diffs)
 
 
+def only_multipleof_spelling(a, b):
+    """do the dumps differ, and only in the int / float spelling of equal `multipleOf` parameters — the region of the
+    finding C17-int-float-multipleOf"""
+    diffs = []
+
+    def num_of(x):
+        if isinstance(x, dict) and set(x) == {"i"}:
+            return int(x["i"])
+        if isinstance(x, dict) and set(x) == {"f"}:
+            n, d = int(x["f"][0]), int(x["f"][1])
+            return (n, d) if d else None
+        return None
+
+    def same_number(p, q):
+        m, n = num_of(p), num_of(q)
+        if m is None or n is None or type(m) is type(n):
+            return False
+        i, f = (m, n) if isinstance(m, int) else (n, m)
+        return f[0] == i * f[1]
+
+    def walk(p, q, key=None):
+        if type(p) is not type(q):
+            diffs.append(False)
+        elif isinstance(p, dict):
+            if p != q and key == "multipleOf" and same_number(p, q):
+                diffs.append(True)
+            elif set(p) != set(q):
+                diffs.append(False)
+            else:
+                for k in p:
+                    walk(p[k], q[k], k)
+        elif isinstance(p, list):
+            if len(p) != len(q):
+                diffs.append(False)
+            else:
+                for u, v in zip(p, q):
+                    walk(u, v, key if key != "multipleOf" else None)
+        elif p != q:
+            diffs.append(False)
+    walk(a, b)
+    return bool(diffs) and all(diffs)
+
+
+def model_verdicts(drv, dump, el, v):
+    """the Lean model's verdict for one call (None when the driver cannot say)"""
+    try:
+        pats, fmts = core.elem_patterns_formats(el)
+        texts = set()
+        if not isinstance(v, core.NotPassed):
+            core.all_strings(v, texts)
+        core.all_strings(dump, texts)
+        rep = drv.ask({"op": "elem_call", "elem": dump, "args": [core.enc_arg(v)], "tables": core.make_tables(pats, fmts, sorted(texts))})
+        return rep["results"][0]["r"] if "error" not in rep else None
+    except Exception:  # noqa: BLE001
+        return None
+
+
+BIG_ODD = [2 ** 53 + 1, 2 ** 53 + 3, -(2 ** 53) - 1, 3 * 2 ** 53 + 3, 2 ** 60 + 5, 10 ** 17 + 1, 10 ** 22 + 7]
+
+
+def has_multiple_of(d):
+    if isinstance(d, dict):
+        return "multipleOf" in d or any(has_multiple_of(v) for v in d.values())
+    if isinstance(d, list):
+        return any(has_multiple_of(v) for v in d)
+    return False
+
+
 def check_pair(drv, da, db, kind, values, out, stats, built=None, extra=None, served_first=False):
     try:
         a, b = built if built is not None else (dsl.build(da), dsl.build(db))
@@ -276,9 +347,19 @@ def check_pair(drv, da, db, kind, values, out, stats, built=None, extra=None, se
     if not real["eq"]:
         return
     region = "C17-bool-number-literals" if kind in ("lookalike",) or has_bool_num_confusion(da, db) else None
+    spelling = region is None and only_multipleof_spelling(da, db)
+    if has_multiple_of(da) or has_multiple_of(db):
+        # integers no double represents: exact `%` and the floating-point quotient part ways there
+        values = list(values) + BIG_ODD + [{"a": BIG_ODD[0]}, [BIG_ODD[1]]]
+        stats["pairs-with-multipleOf"] = stats.get("pairs-with-multipleOf", 0) + 1
     for v in values:
         ra, rb = core.real_call(a, v), core.real_call(b, v)
         if ra["r"] in ("ok", "reject") and rb["r"] in ("ok", "reject") and ra["r"] != rb["r"]:
+            if spelling:
+                # the listed finding covers the pair only where the model predicts this very disagreement
+                ma, mb = model_verdicts(drv, da, a, v), model_verdicts(drv, db, b, v)
+                if (ma, mb) == (ra["r"], rb["r"]):
+                    region = "C17-int-float-multipleOf"
             out.failures.append({"case": {**case, "value": core.enc_arg(v)}, "what": f"equal elements disagree on a value: {ra['r']} vs {rb['r']}",
                                  "finding": region if agree else None})
             stats["oracle-fail-" + str(region if agree else None)] = stats.get("oracle-fail-" + str(region if agree else None), 0) + 1
@@ -429,6 +510,18 @@ def run(ctx, scale=1.0):
             except Exception:  # noqa: BLE001
                 continue
             check_pair(drv, dfinal, core.dump_elem(b), "used-then-reconfigured", vg.values(dump_to_schema(dfinal), 6) + vals, out, stats, built=(a, b))
+        # one numeric parameter spelled as an int on one side and as the equal float on the other (2 vs 2.0)
+        for i in range(int(40 * scale)):
+            name = ["multipleOf", "minimum", "maximum", "exclusiveMinimum", "exclusiveMaximum"][i % 5]
+            m = rng.choice([1, 2, 3, 5, 10, 2 ** 53, 7])
+            cls = rng.choice(["Element", "Integer", "Number"])
+            da = {"cls": cls, "kw": {name: core.enc_val(m)}}
+            db = {"cls": cls, "kw": {name: core.enc_val(float(m))}}
+            vals = [m, float(m), m + 1, m - 1, 2 * m, 0, 1.5, "s", None] + BIG_ODD
+            if i % 3 == 0:
+                wrap = lambda x: {"cls": "Array", "kw": {"itemsKind": "single"}, "items": [x]}
+                da, db, vals = wrap(da), wrap(db), [[v] for v in vals]
+            check_pair(drv, da, db, "num-retype", vals, out, stats)
         # the shape of the recorded finding, and its consequence through de-duplication
         check_pair(drv, {"cls": "Element", "kw": {"const": True}}, {"cls": "Element", "kw": {"const": {"i": "1"}}}, "lookalike",
                    [True, 1, 1.0, 0], out, stats)
